@@ -189,6 +189,37 @@ def one(ctx, model):
         if not C.close(real, want, 1e-10):
             ctx.violation(f'timescale:{model[0]}', model=model, N=N, expected=want, observed=real,
                           oracle='N (Kingman / unscaled), N^2 (Dirac), msprime Beta scaling')
+    # ---- state-space rate matrices: in EVERY epoch of a demography (the state space is moved from epoch to epoch, as the
+    # statistics do), and in whichever order the epochs are visited, the total rate from a state with b lineages to the states
+    # with b - k + 1 lineages is C(b,k) lambda_{b,k} over the time scale of that epoch's population size
+    if not (model[0] == 'beta' and model[1] == 1.0):
+        rngm = random.Random(f'c14-matrix-{ctx.seed}-{model}')
+        sizes = [1.0] + rngm.sample([0.25, 0.5, 2.0, 3.0, 10.0], 3)
+        nn = rngm.choice([3, 4, 5])
+        coal = pg.Coalescent(n=nn, model=conv.make_model(pg, model), parallelize=False, pbar=False,
+                             demography=pg.Demography(pop_sizes={'pop_0': {float(i): v for i, v in enumerate(sizes)}}))
+        eps_ = list(itertools.islice(coal.demography.epochs, len(sizes)))
+        for which in ('lineage_counting_state_space', 'block_counting_state_space'):
+            ss = getattr(coal, which)
+            lin = [int(np.asarray(st.lineages)[0].sum()) for st in ss.states]
+            visit = list(range(len(eps_))) + [rngm.randrange(len(eps_)) for _ in range(3)]
+            for pos, e_i in enumerate(visit):
+                ss.update_epoch(eps_[e_i])
+                S = np.asarray(ss.S, dtype=float)
+                ts = conv.timescale_oracle(model, sizes[e_i])
+                for i, b in enumerate(lin):
+                    for k in range(2, b + 1):
+                        got = sum(S[i, j] for j, bj in enumerate(lin) if bj == b - k + 1 and j != i)
+                        want = math.comb(b, k) * spec.lam(model, b, k) / ts
+                        if not C.close(want, got, 1e-8, 1e-300):
+                            ctx.violation(f'matrix-rate:{model[0]}', model=model, space=which, n=nn, sizes=sizes, visited=visit[:pos + 1],
+                                          epoch=e_i, N=sizes[e_i], b=b, k=k, expected=want, observed=float(got),
+                                          oracle='C(b,k) * Lambda-measure integral / documented time scale of N')
+                            break
+                    else:
+                        continue
+                    break
+            ctx.count('matrix-epochs', len(visit))
     # ---- limits
     if model[0] == 'beta' and model[1] >= 1.999:
         eps = 2.0 - model[1]
